@@ -291,6 +291,9 @@ func keyStringD(v reflect.Value, depth int) string {
 				return fmt.Sprintf("p:%016x", n)
 			}
 		}
+		if s := curSim.Load(); s != nil && depth == 0 {
+			s.anomaly("unregistered-pointer-map-key")
+		}
 		if v.Kind() == reflect.Pointer && depth < 4 {
 			// unregistered: order by pointee content (best effort)
 			return "c:" + keyStringD(v.Elem(), depth+1)
@@ -344,4 +347,45 @@ func SortedKeys[K comparable, V any](m map[K]V) []K {
 	}
 	sort.Slice(keys, func(i, j int) bool { return strs[keys[i]] < strs[keys[j]] })
 	return keys
+}
+
+// RandIntn / RandInt63n replace calls to unseeded global RNGs in instrumented
+// files: inside a simulation task the value comes from the tape.
+func RandIntn(n int) int {
+	if n <= 1 {
+		return 0
+	}
+	s := curSim.Load()
+	if s != nil && !s.draining.Load() {
+		g := goid()
+		if g != s.root && s.taskOf(g) != nil {
+			return s.T.Choose(n)
+		}
+	}
+	return int(fallbackRand() % uint64(n))
+}
+
+func RandInt63n(n int64) int64 {
+	if n <= 1 {
+		return 0
+	}
+	s := curSim.Load()
+	if s != nil && !s.draining.Load() {
+		g := goid()
+		if g != s.root && s.taskOf(g) != nil {
+			// coarse: 16 buckets over the range keeps the tape small
+			b := int64(s.T.Choose(16))
+			return b * (n / 16)
+		}
+	}
+	return int64(fallbackRand() % uint64(n))
+}
+
+var fbMu sync.Mutex
+var fbState uint64 = 0x243f6a8885a308d3
+
+func fallbackRand() uint64 {
+	fbMu.Lock()
+	defer fbMu.Unlock()
+	return splitmix(&fbState)
 }
